@@ -49,8 +49,21 @@ def compare(cases, unit=None):
 def run_suite(name, gen, n, seed_names=(), unit=None):
     """generate n cases, compare; returns a dict with statistics."""
     t0 = time.time()
-    rng = rng_for("l1", name, *seed_names)
-    cases = list(gen(rng, n))
+    # a generator that trips over one of its own draws (a harness slip, not an implementation verdict) is restarted with a
+    # derived seed for the remaining cases; persistent failure is reported as an error of the suite
+    cases = []; gen_errors = []
+    for attempt in range(6):
+        rng = rng_for("l1", name, *(tuple(seed_names) + (() if attempt == 0 else ("retry%d" % attempt,))))
+        try:
+            for c in gen(rng, max(1, n - len(cases))):
+                cases.append(c)
+            break
+        except Exception:
+            gen_errors.append(traceback.format_exc()[-700:])
+            if len(cases) >= n:
+                break
+    if len(gen_errors) >= 6 or (gen_errors and not cases):
+        raise RuntimeError("generator keeps failing: " + gen_errors[-1])
     t_impl = time.time() - t0
     ok, bad = compare(cases, unit=unit)
     byfn = collections.Counter(c.fn for c in cases)
@@ -58,6 +71,6 @@ def run_suite(name, gen, n, seed_names=(), unit=None):
     sig = collections.Counter((c.fn, tuple(len(t) for t in c.expect), c.expect[0] if c.expect and len(c.expect[0]) < 3 else "") for c in cases)
     return {
         "suite": name, "cases": len(cases), "distinct": distinct, "agree": ok, "disagree": len(bad),
-        "by_function": dict(byfn), "impl_s": round(t_impl, 2), "total_s": round(time.time() - t0, 2),
+        "by_function": dict(byfn), "generator_restarts": len(gen_errors), "generator_errors": gen_errors[:2], "impl_s": round(t_impl, 2), "total_s": round(time.time() - t0, 2),
         "mismatches": bad[:20], "samples": [{"fn": c.fn, "info": c.info, "impl_out": c.expect} for c in cases[:3]],
     }
